@@ -261,6 +261,10 @@ def run(ctx):
                 for c, x in spans.items():
                     t[:, c] = x
                 req = [names[c] if rng.random() < 0.5 else c for c in order]
+                if rng.random() < 0.5:
+                    # a channel named twice (by name and/or position) is still converted once, with its own curve
+                    c2 = order[int(rng.integers(len(order)))]
+                    req.append(names[c2] if rng.random() < 0.5 else c2)
                 o5 = core.attempt(out.transform_fxn, t, req)
                 ctx.counters['chk:accuracy'] += 1
                 if ctx.check(not o5.raised, 'multi-channel-conversion-raised' + dtag, cid, request=req,
